@@ -6,6 +6,7 @@ import re
 from typing import Dict, List, Optional, Set, Tuple
 
 from ..core import asthelp as H
+from ..core import terms as T
 from ..core.progdb import AnalysisError, walk_no_nested, call_name, lit
 
 EXPLANATION = (
@@ -18,6 +19,7 @@ EXPLANATION = (
     "the reader's regular expression and the separators of every json.dump(s) on the write path. NOT decided: contents of arbitrary source files."
     " Later additions: rank field stored without overwriting the block, no generator consumed twice in the overlay, per-rank containers in the counter wrapper."
 )
+CPM = "hta.analyzers.critical_path_analysis"
 MUT = {"append", "extend", "insert", "pop", "remove", "clear", "sort", "reverse", "update", "setdefault", "popitem"}
 READERS = ("get_raw_trace_for_one_rank", "read_trace", "parse_trace_dict")
 
@@ -254,13 +256,18 @@ def _overlay(db, chk, cp):
         skips = [" ".join(ast.unparse(n_).split())[:100] for n_ in ast.walk(lp[0]) if isinstance(n_, ast.If) and any(isinstance(x, (ast.Continue, ast.Break)) for x in ast.walk(n_))]
         chk.ob(rule, "every drawn edge gets its flow pair (no edge is skipped inside the loop)", not jumps, where, found=skips or "no continue / break", accepted="no continue / break in the flow loop",
                why="skipping e.g. edges whose two nodes belong to the same event leaves the span edges of leaf operators and kernels without arrows")
-    chk.ob(rule, "per drawn edge: one start and one end flow event with the same id, built from (begin node, event of begin node) and (end node, event of end node); id advanced once per edge", okp if len(lp) == 1 else None, where,
-           found=det3, accepted="u, v = e.begin, e.end; ids = get_events_for_edge(e); append(get_flow_event(u, start_ev, ..., True)); append(get_flow_event(v, end_ev, ..., False)); flow_id += 1")
-    gf = cp.func("CriticalPathAnalysis.overlay_critical_path_analysis.get_flow_event")
-    call = [c for c in ast.walk(gf) if isinstance(c, ast.Call) and call_name(c).endswith("flow_event")]
-    kws = {k_: ast.unparse(v_).replace(" ", "") for c in call for k_, v_ in H.bound_args(c).items()}
-    chk.ob(rule, "a flow event sits on the process and thread of the event it is attached to", kws.get("pid") == "event['pid']" and kws.get("tid") == "event['tid']" and kws.get("id") == "flow_id" and kws.get("is_start") == "is_start",
-           cp.loc(gf), found={k: kws.get(k) for k in ("id", "pid", "tid", "is_start")}, accepted={"id": "flow_id", "pid": "event['pid']", "tid": "event['tid']", "is_start": "is_start"})
+    decided = _overlay_eval(db, chk, cp, rule)          # the flow pairs and markers decided on the file that is written for a small abstract graph
+    if len(lp) == 1 or not decided:
+        chk.ob(rule, "per drawn edge: one start and one end flow event with the same id, built from (begin node, event of begin node) and (end node, event of end node); id advanced once per edge", okp if len(lp) == 1 else None, where,
+               found=det3, accepted="u, v = e.begin, e.end; ids = get_events_for_edge(e); append(get_flow_event(u, start_ev, ..., True)); append(get_flow_event(v, end_ev, ..., False)); flow_id += 1")
+    gf = cp.functions.get("CriticalPathAnalysis.overlay_critical_path_analysis.get_flow_event")
+    if gf is not None:
+        call = [c for c in ast.walk(gf) if isinstance(c, ast.Call) and call_name(c).endswith("flow_event")]
+        kws = {k_: ast.unparse(v_).replace(" ", "") for c in call for k_, v_ in H.bound_args(c).items()}
+        chk.ob(rule, "a flow event sits on the process and thread of the event it is attached to", kws.get("pid") == "event['pid']" and kws.get("tid") == "event['tid']" and kws.get("id") == "flow_id" and kws.get("is_start") == "is_start",
+               cp.loc(gf), found={k: kws.get(k) for k in ("id", "pid", "tid", "is_start")}, accepted={"id": "flow_id", "pid": "event['pid']", "tid": "event['tid']", "is_start": "is_start"})
+    elif not decided:
+        chk.ob(rule, "the construction of a flow event is found", None, where, found="no nested get_flow_event and the overlay could not be evaluated")
     gev = cp.func("CPGraph.get_events_for_edge")
     r1 = H.match_seq(["$a, $b = (edge.begin, edge.end)", "return (int(self.node_list[$a].ev_idx), int(self.node_list[$b].ev_idx))"], [x for x in gev.body if not isinstance(x, ast.Expr)])
     r2 = [n for n, b_ in H.find_match("return (int(self.node_list[edge.begin].ev_idx), int(self.node_list[edge.end].ev_idx))", gev)]
@@ -271,9 +278,88 @@ def _overlay(db, chk, cp):
     if len(lp) == 1:
         rr = H.find_match("$fl.append(get_flow_event($$a, $$b, $$c, $$d, is_start=True))", lp[0])
         fl_var = rr[0][1]["__mv_fl"] if rr else None
-    chk.ob(rule, "flow events are appended after the source events", len(ext) == 1 and fl_var is not None and H.name_id(ext[0].args[0]) == fl_var and _root_chain(ext[0].func.value)[0] in al, where,
-           found=[ast.unparse(c) for c in ext], accepted="overlaid_trace['traceEvents'].extend(flow_events)")
+    if fl_var is not None or not decided:
+        chk.ob(rule, "flow events are appended after the source events", len(ext) == 1 and fl_var is not None and H.name_id(ext[0].args[0]) == fl_var and _root_chain(ext[0].func.value)[0] in al, where,
+               found=[ast.unparse(c) for c in ext], accepted="overlaid_trace['traceEvents'].extend(flow_events)")
     chk.floor(rule, 6)
+
+
+def _overlay_eval(db, chk, cp, rule) -> bool:
+    """overlay_critical_path_analysis evaluated on a small abstract graph (4 source events on 3 threads, a critical path of 2 edges through events 1 and 2), with the
+    reader, the writer and Trace.flow_event hooked.  Decided on the object handed to the writer: the source events come first, unchanged and in order (the
+    critical ones marked), then one (start, end) pair of flow events per critical edge, pair k carrying id k and sitting on the process / thread of the events
+    that own the edge's begin and end node.  Returns False when the evaluation did not reach the writer (the AST rules then stand alone)."""
+    from ..core.interp import Interp
+    from ..core.values import Obj
+    f = cp.func("CriticalPathAnalysis.overlay_critical_path_analysis")
+    where = cp.loc(f)
+    params = H.param_names(f)
+    need = {"t", "rank", "critical_path_graph", "output_dir", "only_show_critical_events", "show_all_edges"}
+    if not need <= set(params):
+        return False
+    SRC = [(1, 1), (1, 2), (0, 7), (0, 7)]          # (pid, tid) of the four source events
+
+    def scenario(only_crit):
+        written = []
+
+        def mk():
+            events = [{"ph": "X", "name": f"ev{i}", "pid": p_, "tid": t_, "ts": T.P(f"ts{i}"), "dur": T.P(f"dur{i}"), "args": {"device": -1}} for i, (p_, t_) in enumerate(SRC)]
+            raw = {"traceEvents": events, "distributedInfo": {"rank": 0}}
+            E1 = Obj("E1", attrs={"begin": 10, "end": 11, "weight": T.P("w1"), "type": ("enum", "CPEdgeType", "OPERATOR_KERNEL")})
+            E2 = Obj("E2", attrs={"begin": 11, "end": 20, "weight": T.P("w2"), "type": ("enum", "CPEdgeType", "KERNEL_LAUNCH_DELAY")})
+            nodes = {10: Obj("n10", attrs={"ev_idx": 1, "is_start": True}), 11: Obj("n11", attrs={"ev_idx": 1, "is_start": False}), 20: Obj("n20", attrs={"ev_idx": 2, "is_start": True})}
+            g = Obj("cpg", cls=(cp, "CPGraph"), attrs={"critical_path_events_set": {1, 2}, "critical_path_edges_set": [E1, E2], "node_list": nodes})
+            return raw, g
+        state = {}
+
+        def hook(I, name, pos, kw, node):
+            last = name.split(".")[-1]
+            if last == "get_raw_trace_for_one_rank":
+                return state["raw"]
+            if last == "write_raw_trace":
+                written.append(pos[1] if len(pos) > 1 else kw.get("trace_contents"))
+                return None
+            if last == "flow_event" and name != "get_flow_event":
+                return {"__flow__": True, **kw}
+            if last in ("is_dir", "exists", "isdir"):
+                return True
+            if name.startswith(("Path", "os.")) or last in ("mkdir", "expanduser", "makedirs"):
+                return T.P("PATHOBJ")
+            return NotImplemented
+
+        def args(I):
+            state["raw"], g = mk()
+            written.clear()
+            return {"cls": Obj("cls", cls=(cp, "CriticalPathAnalysis")), "t": Obj("t", attrs={"trace_files": {T.P("RANK"): "/x/trace.json"}}), "rank": T.P("RANK"), "critical_path_graph": g,
+                    "output_dir": "/o", "only_show_critical_events": only_crit, "show_all_edges": False}
+        I = Interp(db, call_hook=hook)
+        try:
+            runs = [r for r in I.explore(f"{CPM}:CriticalPathAnalysis.overlay_critical_path_analysis", args) if r.raised is None]
+        except Exception:          # noqa
+            return None
+        if len(runs) != 1 or len(written) != 1 or not isinstance(written[0], dict) or not isinstance(written[0].get("traceEvents"), list):
+            return None
+        return written[0]["traceEvents"]
+    te = scenario(False)
+    if te is None or not all(isinstance(x, dict) for x in te):
+        return False
+    chk.analysed_add("functions", f"{CPM}:CriticalPathAnalysis.overlay_critical_path_analysis (abstract run)")
+    src, flows = [x for x in te if not x.get("__flow__")], [x for x in te if x.get("__flow__")]
+    ok_src = [x.get("name") for x in src] == [f"ev{i}" for i in range(4)] and te[:len(src)] == src and \
+        all((x["pid"], x["tid"]) == SRC[i] and x["ts"] == T.P(f"ts{i}") and x["dur"] == T.P(f"dur{i}") and x["ph"] == "X" for i, x in enumerate(src))
+    chk.ob(rule, "[abstract run] the written file starts with every source event, unchanged and in the source order; flow events follow", ok_src, where,
+           found=[x.get("name") if not x.get("__flow__") else "flow" for x in te], accepted=["ev0", "ev1", "ev2", "ev3", "flow x 4"])
+    marks = [x.get("args", {}).get("critical") for x in src] if ok_src else None
+    chk.ob(rule, "[abstract run] exactly the events of the critical path are marked critical", marks == [None, 1, 1, None] if marks is not None else None, where, found=marks, accepted=[None, 1, 1, None])
+    want = [(0, (1, 2), True), (0, (1, 2), False), (1, (1, 2), True), (1, (0, 7), False)]
+    got = [(x.get("id"), (x.get("pid"), x.get("tid")), x.get("is_start")) for x in flows]
+    chk.ob(rule, "[abstract run] per critical edge one (start, end) flow pair with the edge's own id, on the process / thread of the events owning the begin and the end node", got == want, where,
+           found=[str(x) for x in got], accepted=[str(x) for x in want], why="a pair that reuses the start event's pid/tid, skips an edge or shares an id draws the arrows of the critical path somewhere else")
+    te2 = scenario(True)
+    if te2 is not None and all(isinstance(x, dict) for x in te2):
+        kept = [x.get("name") for x in te2 if not x.get("__flow__")]
+        chk.ob(rule, "[abstract run] only_show_critical_events keeps the critical events (and drops other duration events only)", kept == ["ev1", "ev2"], where, found=kept, accepted=["ev1", "ev2"])
+    return True
 
 
 def _compression(db, chk, tf, tm, tp):
